@@ -321,7 +321,7 @@ Definition item_gd (C : option ictx) (L : tenv) (ps : pstate) (it : item) : bool
   | IStmt s =>
       gd_stmt fenv (call_dyn C) C [] [] L (p_fe ps) (mk_bstate (p_ctx ps) (p_globals ps) (mk_acc (p_labels ps) [] false)) s
   | ILoop b =>
-      gd_block fenv (call_dyn C) C [] [] L (p_fe ps) (mk_bstate (p_ctx ps) (p_loop ps) (mk_acc (p_labels ps) [] false)) b
+      gd_block fenv (call_dyn C) C [] [] L (p_fe ps) (mk_bstate (p_ctx ps) (p_globals ps) (mk_acc (p_labels ps) [] false)) b
   | IDef _ _ => false
   end.
 Fixpoint items_gd (C : option ictx) (L : tenv) (ps : pstate) (its : list item) : bool :=
